@@ -133,15 +133,17 @@ impl rustc_driver::Callbacks for Facts {
                         let cty = tcx.type_of(did).instantiate_identity().skip_norm_wip();
                         let val = mir_dump::eval_const_item(tcx, did, cty);
                         let (line, _) = span_json(tcx, tcx.def_span(did));
-                        consts.push((
-                            path.clone(),
-                            J::obj(vec![
-                                ("ty", J::Str(ty_str(cty))),
-                                ("value", val),
-                                ("pub", J::Bool(tcx.visibility(did).is_public())),
-                                ("line", line),
-                            ]),
-                        ));
+                        let mut co = vec![
+                            ("ty", J::Str(ty_str(cty))),
+                            ("value", val),
+                            ("pub", J::Bool(tcx.visibility(did).is_public())),
+                            ("line", line),
+                        ];
+                        // the initialiser expression (tables of strings, struct constants) for the evaluator
+                        if let Some(t) = self.thir.remove(&path) {
+                            co.push(("thir", t));
+                        }
+                        consts.push((path.clone(), J::obj(co)));
                     }
                 }
                 DefKind::Fn | DefKind::AssocFn | DefKind::Closure => {
